@@ -22,7 +22,7 @@ from ser import rat
 from props import c06 as base
 
 LEAN_MODULE = "Optyx.Props.C07"
-EXTRA_MODULES = ["Optyx.Props.PinsC07"]   # transcription anchors (harness/source_pins.py)
+EXTRA_MODULES = ["Optyx.Props.PinsC07", "Optyx.Props.SolveTie"]   # transcription anchors (harness/source_pins.py)
 THEOREMS = [
     "Optyx.Props.C07.lp_objective_value",
     "Optyx.Props.C07.scipy_objective_value",
@@ -35,6 +35,8 @@ THEOREMS = [
     "Optyx.Props.Glue.lpGlue_text",
     "Optyx.Props.Dispatch.solve_autoSelect_eq_generated",
     "Optyx.Props.Dispatch.solve_route_eq_generated",
+    "Optyx.Props.SolveTie.finish_objective_eq",
+    "Optyx.Props.SolveTie.solutionKwargs_pin",
     "Optyx.Props.PinsC07.anchors",
 ]
 ASSUMPTIONS = [
